@@ -47,6 +47,16 @@ let check (fields : sexp list) : verdict * string option =
              (the library closes the TLS connection itself: its closing record is the last thing on the wire) *)
           (match List.map int_of_byte tlsin with 0 :: 0 :: 0 :: 16 :: 4 :: 210 :: 22 :: 46 :: _ -> true | _ -> false) then
     (OracleFail "a CancelRequest inside the TLS session was not closed in an orderly way: no closing record (close_notify) was sent", None)
+  else if hs = "ok" && c0.sc_tls && (match field_opt "readend" tlo with Some [A "closed"] | None -> false | _ -> true) &&
+          (* a Terminate the server got to in lock-step (every message before it was answered, the connection still
+             open; not judged when a terminate hook fails: the session then ends as on any other error): the server closes the connection — the TLS connection, with its closing record — as it closes the
+             plaintext one *)
+          (let nmsgs = int_of_string (atom (field1 "nmsgs" tlo)) in
+           List.length o.steps = nmsgs && c0.sc_term <> Some false &&
+           (match List.rev (List.map int_of_byte tlsin) with 4 :: 0 :: 0 :: 0 :: 88 :: _ -> true | _ -> false) &&
+           List.exists (fun e -> e = Closed) model &&
+           List.exists (function Out (BReady _) -> true | _ -> false) model) then
+    (OracleFail "Terminate inside the TLS session: the transport was cut underneath the session, no closing record (close_notify) was sent", None)
   else if (let raw_hex = atom (field1 "raw" fields) in
            (try ignore (Str.search_forward (Str.regexp_string "53545546464544") raw_hex 0); true with Not_found -> false)) &&
           List.exists (fun (_, _, e) -> match e with CbParse q -> atom_of_bytes q = "x53545546464544" | _ -> false) o.events then
